@@ -19,7 +19,8 @@ from .values import SymBool, SymBytes, SymInt, SymStr, conc
 
 VERIF = os.path.dirname(os.path.dirname(os.path.abspath(__file__)))
 EXIT_HARNESS = 3
-DEFAULT_OB_TIMEOUT = [300]  # seconds per obligation task (driver: 300 quick / 3000 thorough)
+DEFAULT_OB_TIMEOUT = [90]  # seconds per obligation task (driver: 90 quick / 3000 thorough)
+DEFAULT_FORK_CAP = [256]  # value-forks per obligation task (driver: 256 quick / 2048 thorough)
 
 
 class SymCtx:
@@ -243,7 +244,7 @@ def _perturb(v):
 class Ob:
     def __init__(self, name, module, func, params=None, tick_budget=None, allow_opaque=False,
                  split=False, max_paths=200000, timeout_s=None, budget_is_violation=False,
-                 canary=True, fork_cap=1024, exc_ok=False, abstract_dicts=False):
+                 canary=True, fork_cap=None, exc_ok=False, abstract_dicts=False):
         self.name = name
         self.module = module
         self.func = func
@@ -273,7 +274,7 @@ def _run_ob(task):
         fn = getattr(mod, ob.func)
         deadline = t0 + (ob.timeout_s or DEFAULT_OB_TIMEOUT[0])
         ex = _ex.Explorer(tick_budget=ob.tick_budget or 500000, seed=seed, timeout_ms=solver_timeout_ms,
-                          fork_cap=ob.fork_cap, max_paths=path_cap or ob.max_paths,
+                          fork_cap=ob.fork_cap or DEFAULT_FORK_CAP[0], max_paths=path_cap or ob.max_paths,
                           allow_opaque=ob.allow_opaque, deadline=deadline,
                           abstract_dicts=ob.abstract_dicts)
         ctx = SymCtx(ex, deviations, canary)
